@@ -464,6 +464,10 @@ def run(ctx):
         run_case(ctx, 256, 'u8', [(f"h:{s.encode().hex() or '-'}", str(i)) for i, s in enumerate(texts)], (), f'hashed{t}')
         run_case(ctx, rng.choice([255, 128]), 'u8', [(f"h:{s.encode().hex() or '-'}", str(i)) for i, s in enumerate(texts)], (), f'hashed-narrow{t}')
         run_case(ctx, 266, 'u8', ins[:1], (), f'addr-narrow{t}')
+        # an Address key IS the 267-bit MsgAddressInt (the tag and the workchain are part of the key): at any narrower width it does
+        # not fit (in particular not at 256, where only the account id would fit), at a wider one it is that 267-bit integer
+        run_case(ctx, rng.choice([256, 256, 264, 8, 1]), 'u8', ins[:2], (), f'addr-narrower{t}')
+        run_case(ctx, rng.choice([268, 300, 512]), 'u8', ins[:2], (), f'addr-wider{t}')
     # --- invalid keys mixed with valid ones
     for t in range(ctx.n(400, 4000)):
         n = rng.choice([1, 2, 3, 4, 7, 8, 9, 16, 31, 32, 64, 255, 256, 267, 1023])
